@@ -31,6 +31,9 @@ Step ==
     /\ LET e == Trace[l] IN
        IF e.op = "reset" THEN en' = [x \in {} |-> <<>>]
        ELSE IF e.op = "new" THEN
+            \* what the enumeration holds right after it was built is the mapping it was given, in that order
+            /\ (IF "given" \notin DOMAIN e \/ Same(Pairs(e.given), e.items) THEN TRUE
+                ELSE PrintT(<<"VERDICT", ToJson([i |-> l, clause |-> "AgreesWithDictionary", detail |-> ToJson(e.given)])>>))
             /\ (IF Others(e) THEN TRUE
                 ELSE PrintT(<<"VERDICT", ToJson([i |-> l, clause |-> "NoCrossTalk", detail |-> "new"])>>))
             /\ en' = [k \in DOMAIN en \cup {e.e} |-> IF k = e.e THEN Pairs(e.items) ELSE en[k]]
